@@ -35,7 +35,11 @@ func addSubstProcs(r rng, p *sdl.Program) {
 		for w := 0; w < nWrap; w++ {
 			tgt := pick(r, p.Instances)
 			var plan []string
-			switch r.IntN(7) {
+			switch r.IntN(8) {
+			case 7:
+				// short-circuit: the processor answers before instantiation with the registered
+				// instance itself
+				plan = []string{"=" + sdl.CbBeforeInst}
 			case 0:
 				plan = []string{sdl.CbEarly}
 			case 1:
@@ -53,9 +57,14 @@ func addSubstProcs(r rng, p *sdl.Program) {
 			slot++
 			for _, at := range plan {
 				s := base
+				action := "substitute"
 				if at[0] == '!' {
 					at = at[1:]
 					s = base + "b"
+				}
+				if at[0] == '=' {
+					at = at[1:]
+					action, s = "self", ""
 				}
 				if pr.Class == "plain" && (at == sdl.CbEarly || at == sdl.CbBeforeInst) {
 					continue
@@ -63,7 +72,7 @@ func addSubstProcs(r rng, p *sdl.Program) {
 				if pr.Class == "inst" && at == sdl.CbEarly {
 					continue
 				}
-				pr.Rules = append(pr.Rules, &sdl.Rule{Target: tgt.ID, At: at, Action: "substitute", Sub: s})
+				pr.Rules = append(pr.Rules, &sdl.Rule{Target: tgt.ID, At: at, Action: action, Sub: s})
 			}
 		}
 		p.Procs = append(p.Procs, pr)
@@ -406,10 +415,19 @@ func genConf(r rng, field string) *sdl.Conf {
 	}
 	// keys that no source ever supplies: the default (if any) is used, otherwise the value
 	// is missing
+	nonScalar := false
 	if (c.Menu == "value" || c.Menu == "valueDef" || c.Menu == "prop") && c.GoType == "int" && r.p(0.3) {
 		c.Keys = []string{pick(r, []string{"gone.a", "gone.b"})}
+		// a field that receives nothing may be of any type: slice, pointer, duration, map
+		if c.Menu != "valueDef" && r.p(0.4) {
+			c.GoType = pick(r, []string{"ints", "intp", "dur", "strmap"})
+			nonScalar = true
+		}
 	}
 	c.Optional = r.p(0.4)
+	if nonScalar {
+		c.Optional = r.p(0.8)
+	}
 	if c.GoType == "int" && r.p(0.3) {
 		c.Validate = pick(r, []string{"min=3", "max=5", "required", "min=2 max=7", "gte=1", "gte=0", "max=20", "omitempty min=3", "omitempty gte=2 max=7", "max=8 omitempty min=4"})
 	}
